@@ -4,6 +4,36 @@ import json
 import sys
 
 LEVEL_TEXT = {
+    'C02': ("PARTIAL. Machine-checked on the abstract propagation model (coq/PropAbs.v: markDirty with early return, cached re-evaluation, setHelper with "
+            "equality suppression, nested notification): for every network of unary/binary operator trees, every interpretation of the user functions and "
+            "every delivery order, after every sequence of input assignments that returns, all nodes are clean, all caches equal their denotation and every "
+            "bound property equals its expression. The executable model coq/PropDefs.v (tables, handles, n-ary nodes, moves, rebinding) is tied to the code by "
+            "differential execution and is checked against the property statement itself (PropCheck.check_c02) on every world it reaches; its refinement to the "
+            "abstract model is not proved. Known finding KF-C02-aborted-walk is re-confirmed on every run.", '6/C02'),
+    'C03': ("Machine-checked on the executable model of Property::setHelper: an equal value changes nothing and logs nothing; any other value notifies every "
+            "about-to-change observer with (old, new) while get() = old, stores, then notifies every changed observer with the new value while get() = new, each "
+            "once, in subscription order, and touches nothing else; set(), operator= and operator>> are the same call and bindings write through setHelper. "
+            "Custom equal_to specialisations and types without operator== are outside the Z-valued model. Tie: differential execution incl. observers that write "
+            "and assignment from a reference into another property.", '6/C03'),
+    'C06': ("PARTIAL. Machine-checked: a change notification reaching an evaluator-driven binding only sets dirty flags; an assignment to an input whose "
+            "subscribers are observers and evaluator-driven nodes changes no other property, runs no user function and notifies only the input's observers; an "
+            "evaluation with nothing dirty runs nothing. 'Fully consistent after one evaluateAll for chains created in dependency order' is evaluated by the "
+            "extracted checker PropCheck.check_c06_after_evalall on every evaluateAll of every generated history and by correspondence with the library (tests).", '6/C06'),
+    'C07': ("Machine-checked on the executable model: every direct write to a bound property raises ReadOnlyProperty and leaves the world unchanged; reset keeps "
+            "value and observers, removes the updater and re-enables the normal write protocol; destroying/replacing a binding touches no property and no "
+            "observer. 'Former inputs no longer influence it' and 'the replaced binding is never evaluated again' rest on the model's link invariant, which is "
+            "checked on every reached world (PropCheck.check_links) and by correspondence, not proved.", '6/C07'),
+    'C10': ("PARTIAL. Machine-checked: handles of a destroyed signal are inactive and its table empty; a leaf without target raises PropertyDestroyedError without "
+            "reading anything and a failed evaluation leaves the bound property untouched. That no expression leaf, registry entry or update function refers to a "
+            "destroyed object is the model's link invariant: evaluated on every reached world of generated destruction orders (PropCheck.check_links) while the "
+            "real library runs the same orders under ASan/UBSan - tests, not proofs.", '6/C10'),
+    'C11': ("PARTIAL. Machine-checked (signal layer): a move touches no Impl, the destination holds the source's Impl and the source none, belongsTo follows, move "
+            "assignment is disconnectAll of the destination followed by the move, and what the destination held is gone (empty table, dead Impl). Property moves "
+            "(value, observers, binding rewiring, retargeting / invalidation of reading nodes) are part of coq/PropDefs.v, tied by correspondence and checked by "
+            "check_c02 / check_links on every reached world.", '6/C11'),
+    'C13': ("Machine-checked on the executable model: a clean node runs no user function, one evaluation runs at most one function per operator node, get() runs "
+            "none, evaluator-driven notifications only mark. The strict statement is refuted for immediate mode with several notification paths "
+            "(C13_multipath_refuted, known finding KF-C13-multipath). Per-call function invocation sequences are compared with the real library.", '6/C13'),
     'C04': ("Machine-checked on the model: a disconnected id becomes stale and stays stale after every further history (hence inactive through every handle "
             "copy, for ever, and - by C01 - never invoked again), repeating the disconnect is a no-op, exactly that table entry and its queued deferred "
             "invocations go while all other connections are untouched, disconnectAll/destruction/overwrite empty the table and kill the Impl. Release of the "
@@ -34,12 +64,13 @@ LEVEL_TEXT = {
             "re-issued, a stale id stays stale for ever under any history (any re-entrant slot bodies), uses through stale ids are rejected or have no "
             "effect, operator== is identity; the 2^32 wrap-around is proved to be real (C12_wrap_refuted, known finding). The model is tied to the code by "
             "differential execution of generated churn histories (stale handles, copies, foreign signals) under ASan/UBSan.", '6/C12'),
-    'C16': ("Machine-checked: after EVERY top-level call of the model - also calls ending in a library exception raised inside nested emissions or "
+    'C16': ("Signal layer machine-checked; property layer by correspondence (fault-injecting property histories: writes to bound properties, destroyed inputs, "
+            "throwing functions, then valid operations) with known finding KF-C02-aborted-walk. Machine-checked: after EVERY top-level call of the model - also calls ending in a library exception raised inside nested emissions or "
             "evaluation passes - no Impl is left emitting, no evaluator evaluating, no disconnect pending, all tables well formed (invariant + frame "
             "contract proved for arbitrary re-entrant slot bodies). Tie: differential execution of fault-injecting histories (stale/foreign/inactive "
             "handles, dead evaluators, nested emission) followed by valid operations.", '6/C16'),
 }
-NOTE = ("Trusted: Coq 8.16.1 kernel; hand-written model (coq/GenIdx.v, coq/SigDefs.v) tied to /repo/src by running model (extracted with ExtrOcamlBasic) "
+NOTE = ("Trusted: Coq 8.16.1 kernel; hand-written models (coq/GenIdx.v, coq/SigDefs.v, coq/PropDefs.v) tied to /repo/src by running model (extracted with ExtrOcamlBasic) "
         "and real library on the same generated scripts; generator coverage bounds the tie. Theorems are closed under the global context (no axioms).")
 TECH = 'Coq proof on executable model + differential correspondence with the C++ library'
 
